@@ -74,6 +74,16 @@ def eval_series(formulas, inputs_list, sheet='Sheet1'):
         a = f'{sheet}!{PROBE_COL}{i + 1}'
         cells[a] = f if f.startswith('=') else '=' + f
         addrs.append(a)
+    # a formula that reads every input and then FAILS (unknown function): it is
+    # evaluated, and its failure caught, before each re-assignment - what a
+    # failed evaluation has read must not survive it
+    keys = [k for k in inputs_list[0] if '!' not in k or
+            k.startswith(sheet + '!')]
+    failing = None
+    if keys and len(keys) <= 40:
+        failing = f'{sheet}!ZY1'
+        cells[failing] = '=' + '+'.join(
+            k.split('!')[-1] for k in keys) + '+NOSUCHFUNCTION(1)'
     try:
         ev = Evaluator(compile_dict(cells, default_sheet=sheet))
     except MonitorAbort:
@@ -83,6 +93,8 @@ def eval_series(formulas, inputs_list, sheet='Sheet1'):
     out = []
     for n, inputs in enumerate(inputs_list):
         if n:
+            if failing:
+                outcome_of(lambda: ev.evaluate(failing))
             for a, v in inputs.items():
                 ev.set_cell_value(a if '!' in a else f'{sheet}!{a}', v)
         out.append([outcome_of(lambda a=a: ev.evaluate(a)) for a in addrs])
